@@ -757,6 +757,8 @@ func (e *Env) callExpr(ex *ast.CallExpr, hint types.Type) Val {
 				}
 			}
 			return Val{T: boolT, S: fmt.Sprintf("(%s (%s) %s)", q, strings.Join(binders, " "), inner)}
+		case "wfault": // ghost: some write to an underlying io.Writer has failed so far
+			return Val{T: boolT, S: c.region(e.st, "$wfault")}
 		case "live":
 			lv, _ := e.liveCall(ex)
 			if lv {
